@@ -375,3 +375,325 @@ def references_are_mutual(group, a, b):
     use(refs_list_is_comprehension, others(a, group))
     use(refs_list_is_comprehension, others(b, group))
     return ref_of(b) in ra and ref_of(a) in rb
+
+
+# =================================================================== ignore filters: they only REMOVE violations
+from contracts.c14_collect import norm_str  # noqa: E402  (str(Path(s)) as used by ViolationGenerator._is_ignored, C09)
+from contracts.c04_checkers import InlineParserT  # noqa: E402
+from contracts.c04_ignore import ParserT as SharedParserT  # noqa: E402
+
+II = "src/linters/dry/inline_ignore.py::InlineIgnoreParser."
+
+
+def path_ignored(file_path, ignore_patterns):
+    """ViolationGenerator._is_ignored (contract in contracts/c09_path_predicates.py)."""
+    return any(pattern in norm_str(file_path) for pattern in ignore_patterns)
+
+
+@contract(VG + "_filter_ignored", props=["C03"],
+          types=dict(self=GeneratorT, violations=Violations, ignore_patterns=SeqOf(Str), filtered=Violations, violation=ViolationT,
+                     path_str=Str),
+          returns=Violations, inline=["_is_ignored"])  # two-line helper (its own contract lives in c09_path_predicates.py)
+class FilterIgnored:
+    """Exactly the violations whose file matches no ignore pattern, in order (nothing else is removed, nothing added)."""
+    def value(violations, ignore_patterns):
+        return [v for v in violations if not any(pattern in norm_str(v.file_path) for pattern in ignore_patterns)] \
+            if len(ignore_patterns) > 0 else violations
+
+    def inv0(violations, ignore_patterns, filtered, rest, old):
+        return ignore_patterns == old.ignore_patterns and \
+            [v for v in violations if not any(pattern in norm_str(v.file_path) for pattern in ignore_patterns)] == \
+            filtered + [v for v in rest if not any(pattern in norm_str(v.file_path) for pattern in ignore_patterns)]
+
+
+@contract(VG + "_extract_line_count", props=["C03"], types=dict(self=GeneratorT, message=Str, start=Int, end=Int), returns=Int)
+class GeneratorExtractLineCount:
+    def reveals(message):
+        return reveal(line_count_of, message, 1)
+
+    def value(message):
+        return line_count_of(message, 1)
+
+
+inline_ignored = uf("dry_inline_ignored", [Dict, Str, Int, Int], Bool)
+
+
+@contract(II + "should_ignore", props=["C03", "C04"],
+          types=dict(self=InlineParserT, file_path=Str, line=Int, end_line=Opt(Int)), returns=Bool,
+          assumed="looks the file's ignore ranges up in a dict of lists of (start, end) tuples (dict values that are lists "
+                  "of tuples are outside the engine); the range tests themselves (_check_range_overlap, "
+                  "_check_single_line) are proved in contracts/c04_checkers.py. Assumed: a pure function of the stored "
+                  "ranges, the path and the line range")
+class InlineShouldIgnore:
+    def value(self, file_path, line, end_line):
+        return inline_ignored(self._ignore_ranges, file_path, line, end_line if end_line is not None else line)
+
+
+def inline_dropped(ranges, v):
+    """The violation's reported range [line, line + line_count - 1] touches a `# dry: ignore-*` range of its file."""
+    return inline_ignored(ranges, v.file_path, v.line or 0, (v.line or 0) + line_count_of(v.message, 1) - 1)
+
+
+@contract(VG + "_filter_inline_ignored", props=["C03", "C04"],
+          types=dict(self=GeneratorT, violations=Violations, inline_ignore=InlineParserT, filtered=Violations, violation=ViolationT,
+                     start_line=Int, line_count=Int, end_line=Int),
+          returns=Violations)
+class FilterInlineIgnored:
+    def value(violations, inline_ignore):
+        return [v for v in violations if not inline_dropped(inline_ignore._ignore_ranges, v)]
+
+    def inv0(violations, inline_ignore, filtered, rest, old):
+        return inline_ignore == old.inline_ignore and \
+            [v for v in violations if not inline_dropped(inline_ignore._ignore_ranges, v)] == \
+            filtered + [v for v in rest if not inline_dropped(inline_ignore._ignore_ranges, v)]
+
+
+@opaque
+def subseq(a: Violations, b: Violations) -> Bool:
+    """a is b with some elements deleted (order preserved): the filters only REMOVE violations."""
+    return len(a) == 0 or (len(b) > 0 and ((a[-1] == b[-1] and subseq(a[:-1], b[:-1])) or subseq(a, b[:-1])))
+
+
+@contract(VG + "_filter_shared_ignored", props=["C03", "C04"],
+          types=dict(self=GeneratorT, violations=Violations, ignore_parser=SharedParserT, file_contents=Dict, filtered=Violations,
+                     violation=ViolationT),
+          returns=Violations, modifies=["ignore_parser._ignore_cache"])
+class FilterSharedIgnored:
+    """The shared directive parser is stateful (memo of repository-pattern verdicts, C04): stated here is only that the
+    filter removes violations -- never adds, reorders or alters one."""
+    def reveals(violations):
+        return reveal(subseq, [], [])
+
+    def ensures_only_removes(violations, result):
+        return subseq(result, violations)
+
+    def inv0(violations, filtered, done, old):
+        return violations == old.violations and reveal(subseq, filtered, done) and subseq(filtered, done)
+
+
+IgnoreCtxT = Rec("IgnoreContext", cls="src/linters/dry/violation_generator.py::IgnoreContext",
+                 inline_ignore=InlineParserT, shared_parser=Opt(SharedParserT), file_contents=Opt(Dict))
+
+
+def vdedup_spec(violations):
+    """ViolationDeduplicator.deduplicate_violations as a function (contracts.c03_dedup)."""
+    return vdedup_groups(list(violation_groups(violations).values())) if len(violations) > 0 else []
+
+
+def pattern_filtered(violations, ignore_patterns):
+    return [v for v in violations if not any(pattern in norm_str(v.file_path) for pattern in ignore_patterns)] \
+        if len(ignore_patterns) > 0 else violations
+
+
+def reported_before_shared_filter(storage, rule_id, config, ranges):
+    """collect -> violation-level de-duplication -> `ignore:` patterns -> `# dry: ignore-*` ranges."""
+    return [v for v in pattern_filtered(vdedup_spec(collect(db_dup_hashes(storage._cache.db), storage._cache.db, rule_id, config)),
+                                        config.ignore_patterns)
+            if not inline_dropped(ranges, v)]
+
+
+@lemma(props=["C03"], types=dict(a=Violations), name="subseq-reflexive")
+def subseq_refl(a):
+    reveal(subseq, a, a)
+    return (len(a) == 0 or ih(subseq_refl, a[:-1])) and subseq(a, a)
+
+
+@contract(VG + "generate_violations", props=["C03"],
+          types=dict(self=GeneratorT, storage=StorageT, rule_id=Str, config=DRYConfigT, ignore_ctx=IgnoreCtxT),
+          returns=Violations, raises=["OSError"], modifies=["ignore_ctx.shared_parser"])
+class GenerateViolations:
+    """The pipeline of the finalize phase. Every stage after _collect_violations only removes violations."""
+    def lemmas_only_removes_after_the_pipeline(storage, rule_id, config, ignore_ctx):
+        return subseq_refl(reported_before_shared_filter(storage, rule_id, config, ignore_ctx.inline_ignore._ignore_ranges))
+
+    def ensures_only_removes_after_the_pipeline(storage, rule_id, config, ignore_ctx, result):
+        return subseq(result, reported_before_shared_filter(storage, rule_id, config, ignore_ctx.inline_ignore._ignore_ranges))
+
+    def ensures_exact_without_shared_directives(storage, rule_id, config, ignore_ctx, result):
+        return implies(ignore_ctx.shared_parser is None or ignore_ctx.file_contents is None,
+                       result == reported_before_shared_filter(storage, rule_id, config, ignore_ctx.inline_ignore._ignore_ranges))
+
+
+# =================================================================== SQL text fingerprint (the storage contracts are ASSUMED)
+SQL_FINGERPRINT = "449f5da0765482171821e4a8eeec4eb7c1b4747df423c0777a6d04ec7a228d52"
+
+
+def _dry_sql_statements(repo):
+    """Whitespace-normalised SQL texts: every statement of cache_query.py and every statement of cache.py that touches
+    the code_blocks table (schema, index, INSERT)."""
+    import ast as _ast
+    import os as _os
+    out = []
+    for rel, keep in (("src/linters/dry/cache_query.py", lambda s: True), ("src/linters/dry/cache.py", lambda s: "code_blocks" in s)):
+        tree = _ast.parse(open(_os.path.join(repo, rel)).read())
+        found = []
+        for n in _ast.walk(tree):
+            if isinstance(n, _ast.Call) and isinstance(n.func, _ast.Attribute) and n.func.attr in ("execute", "executemany", "executescript") \
+                    and n.args and isinstance(n.args[0], _ast.Constant) and isinstance(n.args[0].value, str):
+                found.append((n.lineno, " ".join(n.args[0].value.split())))
+        out.extend(f"{rel}: {s}" for _, s in sorted(found) if keep(s))
+    return out
+
+
+def _storage_roundtrip(repo, seed, cases):
+    """Bounded native check of the ASSUMED storage contract on the real DRYCache (both storage modes): the duplicate
+    hashes are exactly the hash values inserted at least twice (each once) and find_duplicates_by_hash returns exactly
+    the inserted blocks with that hash."""
+    import random
+    import sys as _sys
+    from pathlib import Path as _Path
+    if repo not in _sys.path:
+        _sys.path.insert(0, repo)
+    from src.linters.dry.cache import CodeBlock, DRYCache
+    rng = random.Random(seed)
+    for case in range(cases):
+        cache = DRYCache("memory" if case % 2 == 0 else "tempfile")
+        try:
+            inserted = []
+            for f in range(rng.randrange(1, 4)):
+                path = _Path(f"pkg{rng.randrange(3)}/f{f}.py")
+                blocks = [CodeBlock(file_path=path, start_line=s, end_line=s + rng.randrange(0, 5), snippet=f"s{rng.randrange(4)}",
+                                    hash_value=rng.randrange(-3, 4)) for s in rng.sample(range(1, 40), rng.randrange(0, 6))]
+                cache.add_blocks(path, blocks)
+                inserted.extend(blocks)
+            counts = {}
+            for b in inserted:
+                counts[b.hash_value] = counts.get(b.hash_value, 0) + 1
+            dups = list(cache.duplicate_hashes)
+            if sorted(dups) != sorted(h for h, n in counts.items() if n >= 2):
+                return f"case {case}: duplicate_hashes {sorted(dups)} != hashes stored twice {sorted(h for h, n in counts.items() if n >= 2)}"
+            key = lambda b: (str(b.file_path), b.start_line, b.end_line, b.snippet, b.hash_value)  # noqa: E731
+            for h in counts:
+                got = sorted(key(b) for b in cache.find_duplicates_by_hash(h))
+                want = sorted(key(b) for b in inserted if b.hash_value == h)
+                if got != want:
+                    return f"case {case}: find_duplicates_by_hash({h}) returned {got}, inserted {want}"
+        finally:
+            cache.close()
+    return None
+
+
+@custom("dry-sql-fingerprint", props=["C03"])
+def dry_sql_fingerprint(ctx):
+    import hashlib
+    stmts = _dry_sql_statements(ctx["repo"])
+    digest = hashlib.sha256("\n".join(stmts).encode()).hexdigest()
+    ok = digest == SQL_FINGERPRINT
+    obs = [{"name": "custom:dry-sql-fingerprint/sql-text-unchanged", "kind": "custom",
+            "verdict": "discharged" if ok else "unknown", "solver": "sha256", "ms": 0.0, "carries": False, "lineno": 0,
+            "note": "" if ok else f"the SQL text of the DRY block storage changed (sha256 {digest}, expected {SQL_FINGERPRINT}): "
+                                  "the assumed storage contracts must be re-validated"}]
+    cases = 40 if ctx.get("tier") != "thorough" else 400
+    try:
+        bad = _storage_roundtrip(ctx["repo"], ctx.get("seed", 0), cases)
+    except BaseException as e:  # noqa
+        bad = None
+        obs.append({"name": "custom:dry-sql-fingerprint/storage-roundtrip", "kind": "bounded", "verdict": "unknown",
+                    "note": f"native storage check could not run: {e!r}"[:300], "tool": "native DRYCache", "budget": cases, "cases": 0})
+        return obs
+    obs.append({"name": "custom:dry-sql-fingerprint/storage-roundtrip", "kind": "bounded",
+                "verdict": "refuted" if bad else "passed", "note": bad or "assumed storage contract holds on random insertions",
+                "tool": "native DRYCache (memory + tempfile)", "budget": cases, "cases": cases, "witness": bad,
+                "witness_confirmed": bool(bad)})
+    return obs
+
+
+# =================================================================== window -> CodeBlock (analyzers); heuristics ASSUMED
+PAN = "src/linters/dry/python_analyzer.py::PythonDuplicateAnalyzer."
+TAN = "src/linters/dry/typescript_analyzer.py::TypeScriptDuplicateAnalyzer."
+SSD = "src/linters/dry/single_statement_detector.py::SingleStatementDetector."
+BFR = "src/linters/dry/block_filter.py::BlockFilterRegistry."
+TSD = "src/linters/dry/typescript_statement_detector.py::"
+HEURISTIC = ("statement-classification heuristic (what counts as an 'ordinary statement' window): by DESIGN.md 3/C03 not "
+             "brought under contract; assumed to be a pure function of the file content and the line range")
+
+WinT = TupleOf(Int, Int, Int, Str)
+DetectorT = Rec("SingleStatementDetector", cls="src/linters/dry/single_statement_detector.py::SingleStatementDetector")
+RegistryT = Rec("BlockFilterRegistry", cls="src/linters/dry/block_filter.py::BlockFilterRegistry")
+PyAnalyzerT = Rec("PythonDuplicateAnalyzer", cls="src/linters/dry/python_analyzer.py::PythonDuplicateAnalyzer",
+                  _filter_registry=RegistryT, _statement_detector=Opt(DetectorT))
+TsAnalyzerT = Rec("TypeScriptDuplicateAnalyzer", cls="src/linters/dry/typescript_analyzer.py::TypeScriptDuplicateAnalyzer",
+                  _filter_registry=RegistryT)
+
+py_single_statement = uf("dry_py_single_statement", [Str, Int, Int], Bool)
+ts_single_statement = uf("dry_ts_single_statement", [Str, Int, Int], Bool)
+ts_include_block = uf("dry_ts_include_block", [Str, Int, Int], Bool)
+block_filtered = uf("dry_block_filtered", [CodeBlockT, Str], Bool)
+
+
+@contract(SSD + "is_single_statement", props=["C03"], types=dict(self=DetectorT, content=Str, start_line=Int, end_line=Int),
+          returns=Bool, assumed=HEURISTIC)
+class PyIsSingleStatement:
+    def value(content, start_line, end_line):
+        return py_single_statement(content, start_line, end_line)
+
+
+@contract(BFR + "should_filter_block", props=["C03"], types=dict(self=RegistryT, block=CodeBlockT, file_content=Str),
+          returns=Bool, assumed=HEURISTIC)
+class ShouldFilterBlock:
+    def value(block, file_content):
+        return block_filtered(block, file_content)
+
+
+@contract(TSD + "is_single_statement", props=["C03"], types=dict(content=Str, start_line=Int, end_line=Int), returns=Bool,
+          assumed=HEURISTIC)
+class TsIsSingleStatement:
+    def value(content, start_line, end_line):
+        return ts_single_statement(content, start_line, end_line)
+
+
+@contract(TSD + "should_include_block", props=["C03"], types=dict(content=Str, start_line=Int, end_line=Int), returns=Bool,
+          assumed=HEURISTIC)
+class TsShouldIncludeBlock:
+    def value(content, start_line, end_line):
+        return ts_include_block(content, start_line, end_line)
+
+
+def block_of(file_path, w):
+    """The CodeBlock of a window: location, snippet and hash copied unchanged."""
+    return mk(CodeBlockT, file_path=file_path, start_line=w[1], end_line=w[2], snippet=w[3], hash_value=w[0])
+
+
+def py_keeps(has_detector, file_path, content, w):
+    return not (has_detector and py_single_statement(content, w[1], w[2])) and not block_filtered(block_of(file_path, w), content)
+
+
+@contract(PAN + "_create_block_if_valid", props=["C03"],
+          types=dict(self=PyAnalyzerT, file_path=PathT, content=Str, hash_val=Int, start_line=Int, end_line=Int, snippet=Str),
+          returns=Opt(CodeBlockT))
+class PyCreateBlockIfValid:
+    def value(self, file_path, content, hash_val, start_line, end_line, snippet):
+        return block_of(file_path, (hash_val, start_line, end_line, snippet)) \
+            if py_keeps(self._statement_detector is not None, file_path, content, (hash_val, start_line, end_line, snippet)) else None
+
+    def ensures_block_copies_the_window(self, file_path, content, hash_val, start_line, end_line, snippet, result):
+        return implies(result is not None, result.file_path == file_path and result.start_line == start_line
+                       and result.end_line == end_line and result.snippet == snippet and result.hash_value == hash_val)
+
+
+@contract(TAN + "_build_blocks", props=["C03"],
+          types=dict(self=TsAnalyzerT, windows=SeqOf(WinT), file_path=PathT, content=Str, blocks=Blocks, block=CodeBlockT,
+                     hash_val=Int, start_line=Int, end_line=Int, snippet=Str),
+          returns=Blocks)
+class TsBuildBlocks:
+    """One block per window that the (assumed) filter registry does not reject, in window order, data copied unchanged."""
+    def value(windows, file_path, content):
+        return [block_of(file_path, w) for w in windows if not block_filtered(block_of(file_path, w), content)]
+
+    def inv0(windows, file_path, content, blocks, rest, old):
+        return file_path == old.file_path and \
+            [block_of(file_path, w) for w in windows if not block_filtered(block_of(file_path, w), content)] == \
+            blocks + [block_of(file_path, w) for w in rest if not block_filtered(block_of(file_path, w), content)]
+
+
+@contract(PAN + "_filter_valid_blocks", props=["C03"],
+          types=dict(self=PyAnalyzerT, windows=SeqOf(WinT), file_path=PathT, content=Str), returns=Blocks)
+class PyFilterValidBlocks:
+    """One block per window that is neither classified as a single statement nor rejected by the filter registry (both
+    assumed heuristics), in window order, data copied unchanged: no other window is lost on the way to the storage."""
+    def value(self, windows, file_path, content):
+        # same comprehension shape as the code (walrus on the optional block), so both denote one generated function
+        return [block for hash_val, start_line, end_line, snippet in windows
+                if (block := (block_of(file_path, (hash_val, start_line, end_line, snippet))
+                              if py_keeps(self._statement_detector is not None, file_path, content,
+                                          (hash_val, start_line, end_line, snippet)) else None))]
